@@ -70,7 +70,7 @@ def ref(kind, idx, first, eop, last):
 
 
 def gen_index(rng):
-    kind = rng.choice(["daily", "bdaily", "sparse", "intraday", "weekly", "twoday"])
+    kind = rng.choice(["daily", "bdaily", "sparse", "intraday", "weekly", "twoday", "monthstamp", "monthstamp"])
     start = pd.Timestamp(rng.choice(STARTS)) + pd.Timedelta(days=rng.randint(0, 6))
     n = rng.randint(4, 40)
     if kind == "daily":
@@ -81,6 +81,15 @@ def gen_index(rng):
         idx = pd.date_range(start, periods=n, freq=rng.choice(["W-FRI", "W-MON", "W-WED"]))
     elif kind == "twoday":
         idx = pd.date_range(start, periods=n, freq="2D")
+    elif kind == "monthstamp":
+        # month-, quarter- or year-stamped data: neighbouring rows share the day of the month (and possibly month/quarter numbers across years)
+        f = rng.choice(["MS", "SMS", "QS", "ME", "YS", "15"])
+        if f == "15":
+            idx = pd.DatetimeIndex([start.replace(day=15) + pd.DateOffset(months=i * rng.choice([1, 1, 2, 12])) for i in range(n)]).unique().sort_values()
+        else:
+            idx = pd.date_range(start, periods=n, freq=f)
+        if rng.random() < 0.3:
+            idx = idx + pd.Timedelta(hours=10)
     elif kind == "intraday":
         idx = pd.date_range(start + pd.Timedelta(hours=9), periods=n, freq=rng.choice(["6h", "30min", "13h"]))
     else:
@@ -114,7 +123,12 @@ def spy_backtest(stack_head, idx):
     spy = Spy()
     s = bt.Strategy("s", [stack_head, spy])
     t = bt.Backtest(s, data)
-    t.run()
+    try:
+        t.run()
+    except ZeroDivisionError:
+        # ffn's performance statistics (computed after the date loop) divide by a zero-length window on some multi-year sparse
+        # calendars - a completion issue decided by C10 (K13); the spy log is complete at that point
+        pass
     spy = t.strategy.stack.algos[-1]
     return t.data.index, spy.fired
 
